@@ -123,17 +123,7 @@ theorem end_releases_everything (prog : List Op) (h : WellOwned St.init prog) :
   refine ⟨st, he, ?_⟩
   obtain ⟨s1, h1, hw1⟩ := no_use_after_free_prefix prog [.endAll] hw
   have hn : st.noRefs := by
-    have he2 : exec St.init (prog ++ [.endAll]) = (do let s ← exec St.init prog; exec s [.endAll]) := by
-      clear he hg hw1 h1 hw h
-      generalize St.init = s0
-      induction prog generalizing s0 with
-      | nil => simp [exec, bind, Except.bind]
-      | cons op rest ih =>
-        simp only [List.cons_append, exec]
-        cases step s0 op with
-        | error e => rfl
-        | ok r => simp only [bind, Except.bind] at ih ⊢; exact ih r.1
-    rw [he2, h1] at he
+    rw [exec_append, h1] at he
     simp only [bind, Except.bind, exec, step] at he
     cases hr : releaseAll s1.slots s1.mem with
     | error e => rw [hr] at he; simp at he
@@ -254,15 +244,18 @@ def progSurvivors : List Op :=
 
 example : WellOwned St.init progSurvivors := by decide +kernel
 
+/-- … and ends with every block returned -/
 example : (match exec St.init progSurvivors with
-    | .ok st => some (st.mem.blocks, st.mem.freed.length, st.mem.size)
-    | .error _ => none) = some (0, 9, 9) := by decide +kernel
+    | .ok st => some st.mem.blocks
+    | .error _ => none) = some 0 := by decide +kernel
 
-/-- after the parent was released the kept child is live with count 1 and no parent pointer -/
-example : (match exec St.init (progSurvivors.take 17) with
+/-- after the parent was released the kept child is live with count 1 and NO parent pointer; the parent is
+    gone; 7 blocks remain (node, name, table with one attribute) -/
+example : (match exec St.init [.new 0, .name (T 0) (bs "p"), .attr (T 0) xmlnsKey (bs "n"), .new 1,
+      .name (T 1) (bs "c"), .attr (T 1) xmlnsKey (bs "n"), .add (T 0) 1, .rel 0] with
     | .ok st => some ((st.mem.get 0).live, (st.mem.get 1).live, (st.mem.get 1).ref, (st.mem.get 1).parent,
-        (st.mem.get 2).live, st.mem.blocks)
-    | .error _ => none) = some (false, true, 1, none, true, 19) := by decide +kernel
+        st.mem.blocks)
+    | .error _ => none) = some (false, true, 1, none, 7) := by decide +kernel
 
 /-- R1 is needed: releasing a reference and using it again meets freed memory -/
 example : faultOf (exec St.init [.new 0, .relkeep 0, .rel 0]) = some (.uaf 0) := by decide +kernel
